@@ -35,10 +35,13 @@ def _trace_sig(t, bad, l):
 
 
 def run(ctx):
-    ctx.mc("websec", "Xsrf", "MC_Xsrf.cfg", required_actions=["Post", "IssueStep"],
-           overrides=ctx.pick({"ArbTokLen": 3}, {"ArbTokLen": 5, "Masks": "{1, 2, 3}"}))
-    subs = ctx.pick({}, {"ArbTokLen": 4, "Masks": "{1, 2, 3}", "EditBytes": "{48, 102, 103, 124, 50, 70, 57}"})
-    r, states = W.tlc_states(ctx, "Xsrf", W.cfg_with(ctx, "Gen_Xsrf.cfg", subs), count=False, label="Gen_Xsrf.cfg")
+    if not ctx.quick:
+        ctx.mc("websec", "Xsrf", "MC_Xsrf.cfg", required_actions=["Post", "IssueStep"],
+               overrides={"ArbTokLen": 5, "Masks": "{1, 2, 3}"})
+    # the scenario run is itself a full TLC model-checking run (all invariants of the cfg) with -dump
+    subs = ctx.pick({"Ts": "{1234567}"}, {"ArbTokLen": 4, "Masks": "{1, 2, 3}", "EditBytes": "{48, 102, 103, 124, 50, 70, 57}"})
+    r, states = W.tlc_states(ctx, "Xsrf", W.cfg_with(ctx, "Gen_Xsrf.cfg", subs), count=True, label="Gen_Xsrf.cfg",
+                             coverage=True, required_actions=["Post", "IssueStep"])
     scen = [(st, []) for st in states if st["sc"]["mode"] in ("post", "issue")]
     if not scen:
         raise framework.Machinery("no scenarios generated")
@@ -46,7 +49,7 @@ def run(ctx):
     ctx.replay(scen, X.replay_state, nontrivial=lambda e, p: True)
     ctx._phase("replay", t0)
     ctx.cov["exhaustive"] = True
-    n = ctx.pick(250, 5000)
+    n = ctx.pick(150, 5000)
     t0 = time.time()
     traces = framework.pool_map(X.random_session, [(i + 1, ctx.seed * 1000003 + i, ctx.pick(25, 40)) for i in range(n)])
     ctx._phase("record", t0)
